@@ -17,6 +17,7 @@ CONSTANTS
   MaxLevel = 26
   EmitJson = FALSE
   PruneOnlyOwned = TRUE
+  PushOnlyChanged = TRUE
   AtomicPush = TRUE
   FixSelect = TRUE
   FixDirect = TRUE
